@@ -163,7 +163,7 @@ PROPS = {
                  'one program in four is rendered from 2-16 threads on a fresh shared instance (random job orders, start barrier) and compared byte for byte with the sequential reference.',
         'note': 'Send+Sync of Tera, Context, Value, Key, Kwargs, Error, Number is a compile-time assertion in the harness (a regression is a build failure attributed to this check); data races proper are the business of the TSan/Miri legs, the quick tier only compares results',
         'rule': "one evaluation = one render or one injected failure point; a cell = (render variant, call/byte failure site, failure kind, short/full writes), (variant, ok/err) for the channel differential and the thread count for concurrency",
-        'must_observe': ['channel_pairs_compared', 'failure_points_injected', 'purity_checks', 'concurrent_renders_compared', 'channel_pairs_at_nesting_limits', 'includes_from_one_off_strings_compared'],
+        'must_observe': ['channel_pairs_compared', 'failure_points_injected', 'purity_checks', 'concurrent_renders_compared', 'channel_pairs_at_nesting_limits', 'includes_from_one_off_strings_compared', 'context_alternations_compared'],
     },
     'C09': {
         'scale': {'quick': 2, 'thorough': 1.5},
